@@ -39,14 +39,15 @@ def cases(draw, tier="quick"):
                         max_size=3, unique=True))
     dkf = draw(st.lists(st.sampled_from(uni2), max_size=3, unique=True))
     opts = {"dkr": dkr, "dkf": dkf, "merge": draw(gen.merge_policies()), "sreg": draw(gen.sregs()),
-            "cli_form": draw(st.booleans())}
+            "cli_form": draw(st.booleans()), "ordered_dict": draw(st.sampled_from([False, False, False, True]))}
     return {"samples": samples, "opts": opts}
 
 
 def valid(case):
     o = dict(case.get("opts") or {})
     cf = o.pop("cli_form", False)
-    if not isinstance(cf, bool):
+    od = o.pop("ordered_dict", False)
+    if not isinstance(cf, bool) or not isinstance(od, bool):
         return False
     for x in o.get("dkr") or []:
         if "|" in x:
@@ -106,7 +107,20 @@ def check(case):
         sreg = pl.make_sreg(pl.norm_opts(o)["sreg"])
         g = pl.MetadataGenerator(str_types_registry=sreg, dict_keys_regex=pats or None, dict_keys_fields=fields or None)
         reg = pl.ModelRegistry(*pl.make_cmps(o.get("merge")))
-        ptr = reg.process_meta_data(g.generate(*samples), model_name="Root")
+        data = samples
+        if o.get("ordered_dict"):
+            # objects as a dict subclass, as json.load(..., object_pairs_hook=OrderedDict) or a YAML loader deliver them
+            import collections
+
+            def od(v):
+                if isinstance(v, dict):
+                    return collections.OrderedDict((k, od(x)) for k, x in v.items())
+                if isinstance(v, list):
+                    return [od(x) for x in v]
+                return v
+            data = [od(x) for x in samples]
+            r.label("objects-as-OrderedDict")
+        ptr = reg.process_meta_data(g.generate(*data), model_name="Root")
         reg.merge_models(generator=g)
         return reg, ptr, ref, set(o["dkf"])
 
